@@ -133,8 +133,8 @@ Proof.
   intros B B' G [->|(N & I & R)]; [auto|].
   destruct R as (Ci & L & Wd & D). unfold kpcell at 2. rewrite N.
   destruct D as [(Bn & U)|(a & E & La & Ua)].
-  - unfold kpcell. rewrite Bn. apply (kpc_mono H W c c' m B' G L U).
-  - subst c'. unfold kpcell. cbn [c_bound bcell]. apply (kpc_bound_mono H W c a m B G La).
+  - unfold kpcell. rewrite Bn. apply (kpc_mono H W c c' m B' L U).
+  - subst c'. unfold kpcell. cbn [c_bound bcell]. apply (kpc_bound_mono H W c a m B La).
 Qed.
 
 (* ------------------------------------------------------------------ *)
@@ -157,7 +157,7 @@ Lemma follow_var_back s s' r w' : inv s -> inv s' -> (forall w, crel (cell_of s 
   follow s' r = V w' -> follow s r = V w'.
 Proof.
   intros I I' C E. rewrite <- (follow_ext s s' r I' (crel_bext s s' C)) in E.
-  pose proof (Inv.follow_unbound true s r I) as N.
+  pose proof (@Inv.follow_unbound true s r I) as N.
   destruct (follow s r) as [w1|o xs] eqn:Ef; [|rewrite Lub.follow_O in E; discriminate].
   cbn [nb] in N. destruct (C w1) as [Ec|(_ & _ & (_ & _ & _ & D))].
   - rewrite Lub.follow_V_unbound in E by (rewrite Ec; exact N). exact E.
@@ -172,14 +172,14 @@ Lemma kp_mono s s' r m : inv s -> inv s' -> (forall w, bok (cell_of s w)) -> (fo
   kp H s' r m = true -> kp H s r m = true.
 Proof.
   intros I I' B B' G C. unfold kp at 1. rewrite <- (follow_ext s s' r I' (crel_bext s s' C)).
-  pose proof (Inv.follow_unbound true s r I) as N. unfold kp.
+  pose proof (@Inv.follow_unbound true s r I) as N. unfold kp.
   destruct (follow s r) as [w1|o xs] eqn:Ef; [|rewrite Lub.follow_O; auto].
   cbn [nb] in N. destruct (C w1) as [Ec|(_ & _ & R)].
   - rewrite Lub.follow_V_unbound by (rewrite Ec; exact N). rewrite Ec. auto.
   - destruct R as (Ci & L & Wd & D). destruct D as [(Bn & U)|(a & Ec & La & Ua)].
-    + rewrite Lub.follow_V_unbound by exact Bn. apply (kpc_mono H W _ _ m (B' w1) G L U).
+    + rewrite Lub.follow_V_unbound by exact Bn. apply (kpc_mono H W _ _ m (B' w1) L U).
     + rewrite (Lub.follow_V_bound_O s' w1 a []) by (rewrite Ec; reflexivity).
-      apply (kpc_bound_mono H W _ a m (B w1) G La).
+      apply (kpc_bound_mono H W _ a m (B w1) La).
 Qed.
 
 (* a fulfilled subtype constraint stays fulfilled *)
@@ -188,26 +188,69 @@ Lemma vd_done_mono s s' k a : inv s -> inv s' -> (forall w, crel (cell_of s w) (
   vd s k = PDone -> vd s' k = PDone.
 Proof.
   intros I I' C Ea Ba D.
-  pose proof (Inv.follow_unbound true s (k_ref k) I) as N.
+  pose proof (@Inv.follow_unbound true s (k_ref k) I) as N.
   destruct (follow s (k_ref k)) as [w1|o xs] eqn:Ef.
   - cbn [nb] in N.
-    rewrite (pfc_var H W 0 s k w1 a (inv_chain true s I) Ef Ea Ba) in D. unfold vdv in D.
+    pose proof (pfc_var H W 0 s k w1 a (@inv_chain true s I) Ef Ea Ba) as X. change (4 + 0) with 4 in X.
+    rewrite X in D. clear X. unfold vdv in D.
     destruct (a =? Top) eqn:ET; [|destruct (kpc H (cell_of s w1) a); discriminate].
     destruct (k_strict k) eqn:Es; [discriminate|]. apply Nat.eqb_eq in ET. subst a.
     assert (E' : follow s' (k_ref k) = follow s' (V w1)).
     { rewrite <- (follow_ext s s' _ I' (crel_bext s s' C)), Ef. reflexivity. }
     destruct (C w1) as [Ec|(_ & _ & (_ & _ & _ & Dd))].
     + rewrite Lub.follow_V_unbound in E' by (rewrite Ec; exact N).
-      rewrite (pfc_var H W 0 s' k w1 Top (inv_chain true s' I') E' Ea Ba). unfold vdv. rewrite Es. reflexivity.
+      pose proof (pfc_var H W 0 s' k w1 Top (@inv_chain true s' I') E' Ea Ba) as X. change (4 + 0) with 4 in X.
+      rewrite X. unfold vdv. rewrite Es. reflexivity.
     + destruct Dd as [(Bn & _)|(b & Ec & _)].
       * rewrite Lub.follow_V_unbound in E' by exact Bn.
-        rewrite (pfc_var H W 0 s' k w1 Top (inv_chain true s' I') E' Ea Ba). unfold vdv. rewrite Es. reflexivity.
+        pose proof (pfc_var H W 0 s' k w1 Top (@inv_chain true s' I') E' Ea Ba) as X. change (4 + 0) with 4 in X.
+      rewrite X. unfold vdv. rewrite Es. reflexivity.
       * rewrite (Lub.follow_V_bound_O s' w1 b []) in E' by (rewrite Ec; reflexivity).
         cbn [pfc]. rewrite Ea. cbn [ubase]. rewrite E'. cbn [Nat.eqb Top orb]. rewrite orb_true_r.
         cbn [match_f]. rewrite Lub.follow_O, E'. cbn [andb Nat.eqb Top]. rewrite orb_true_r. rewrite Es. reflexivity.
   - assert (E' : follow s' (k_ref k) = O o xs).
     { rewrite <- (follow_ext s s' _ I' (crel_bext s s' C)), Ef. apply Lub.follow_O. }
     rewrite <- (pfc_res H 4 s s' k o xs a Ef E' Ea Ba). exact D.
+Qed.
+
+(* a violated subtype constraint stays violated *)
+Lemma vd_err_mono s s' k a e : inv s -> inv s' -> (forall w, bok (cell_of s w)) -> (forall w, bok (cell_of s' w)) ->
+  (forall w, crel (cell_of s w) (cell_of s' w)) ->
+  k_alts k = [O a []] -> basic H a = true ->
+  vd s k = PErr e -> exists e', vd s' k = PErr e'.
+Proof.
+  intros I I' B B' C Ea Ba D.
+  pose proof (@Inv.follow_unbound true s (k_ref k) I) as N.
+  destruct (follow s (k_ref k)) as [w1|o xs] eqn:Ef.
+  - cbn [nb] in N.
+    pose proof (pfc_var H W 0 s k w1 a (@inv_chain true s I) Ef Ea Ba) as X. change (4 + 0) with 4 in X.
+    rewrite X in D. clear X. unfold vdv in D.
+    destruct (a =? Top) eqn:ET; [destruct (k_strict k); discriminate|].
+    destruct (kpc H (cell_of s w1) a) eqn:K; [discriminate|].
+    assert (E' : follow s' (k_ref k) = follow s' (V w1)).
+    { rewrite <- (follow_ext s s' _ I' (crel_bext s s' C)), Ef. reflexivity. }
+    assert (UN : c_bound (cell_of s' w1) = None -> exists e', vd s' k = PErr e').
+    { intros Bn. rewrite Lub.follow_V_unbound in E' by exact Bn.
+      pose proof (pfc_var H W 0 s' k w1 a (@inv_chain true s' I') E' Ea Ba) as X. change (4 + 0) with 4 in X.
+      rewrite X. unfold vdv. rewrite ET.
+      destruct (kpc H (cell_of s' w1) a) eqn:K'; [|eauto]. exfalso.
+      destruct (C w1) as [Ec|(_ & _ & (_ & L & _ & Dd))]; [rewrite Ec in K'; congruence|].
+      destruct Dd as [(_ & U)|(b & Ec & _)]; [|rewrite Ec in Bn; discriminate].
+      rewrite (kpc_mono H W _ _ a (B' w1) L U K') in K. discriminate. }
+    destruct (C w1) as [Ec|(_ & _ & (_ & L & _ & Dd))]; [apply UN; rewrite Ec; exact N|].
+    destruct Dd as [(Bn & _)|(b & Ec & Lb & _)]; [apply UN; exact Bn|].
+    rewrite (Lub.follow_V_bound_O s' w1 b []) in E' by (rewrite Ec; reflexivity).
+    destruct (B w1) as (B1 & _). destruct (B1 b Lb) as (Vb & NBb & NTb).
+    assert (Bb : basic H b = true) by (unfold basic, arity; rewrite Vb; reflexivity).
+    cbn [pfc]. rewrite Ea. cbn [ubase]. rewrite E'. rewrite (proj2 (Nat.eqb_neq b Bottom) NBb), ET. cbn [orb]. rewrite Bb.
+    cbn [match_f]. rewrite Lub.follow_O, E'. cbn [andb]. rewrite (proj2 (Nat.eqb_neq b Bottom) NBb), ET. cbn [orb]. rewrite Bb.
+    destruct ((b =? a) || osub H false b a) eqn:Kb; [|eauto]. exfalso.
+    assert (Ko : kpo H b a = true).
+    { unfold kpo. rewrite Bb. cbn [andb]. rewrite Kb. apply orb_true_r. }
+    rewrite (kpc_bound_mono H W _ b a (B w1) Lb Ko) in K. discriminate.
+  - assert (E' : follow s' (k_ref k) = O o xs).
+    { rewrite <- (follow_ext s s' _ I' (crel_bext s s' C)), Ef. apply Lub.follow_O. }
+    rewrite <- (pfc_res H 4 s s' k o xs a Ef E' Ea Ba). eauto.
 Qed.
 
 (* ------------------------------------------------------------------ *)
@@ -286,7 +329,7 @@ Record T2 (s s' : store) : Prop := mkT2 {
   t2_ne : forall w a, unb s' w -> c_lower (cell_of s' w) = Some a -> c_upper (cell_of s' w) = Some a ->
             c_upper (cell_of s w) = Some a;
   t2_done : forall c, k_done (constr_of s c) = true -> k_done (constr_of s' c) = true;
-  t2_frz : forall c, k_elim (constr_of s c) = true -> k_done (constr_of s c) = true ->
+  t2_frz : forall c, k_elim (constr_of s0 c) = true -> k_done (constr_of s c) = true ->
              constr_of s' c = constr_of s c;
   t2_dcl : forall c, In c (cset_of s0 i) -> k_elim (constr_of s0 c) = true ->
              k_done (constr_of s c) = false -> k_done (constr_of s' c) = true ->
@@ -332,14 +375,1155 @@ Proof.
     pose proof (t2_cell _ _ B w) as C.
     apply (t2_ne _ _ A w a); [eapply crel_unb; eauto|rewrite <- (crel_lower _ _ C); exact L|exact X].
   - intros c D. apply (t2_done _ _ B), (t2_done _ _ A), D.
-  - intros c E D. rewrite (t2_frz _ _ B c), (t2_frz _ _ A c); auto; rewrite (t2_frz _ _ A c); auto.
+  - intros c E D. rewrite (t2_frz _ _ B c E), (t2_frz _ _ A c E D); auto.
+    rewrite (t2_frz _ _ A c E D). exact D.
   - intros c Hc E D1 D3. destruct (k_done (constr_of s2 c)) eqn:D2.
     + destruct (t2_dcl _ _ A c Hc E D1 D2) as (m & Ea & Dc).
-      assert (E2 : k_elim (constr_of s2 c) = true).
-      { destruct (k_elim (constr_of s2 c)) eqn:X; [reflexivity|]. rewrite Ea in *. exfalso.
-        clear - X. admit. }
-      exists m. rewrite (t2_frz _ _ B c E2 D2). split; [exact Ea|]. eapply dcl_T2; eauto.
+      exists m. rewrite (t2_frz _ _ B c E D2). split; [exact Ea|]. eapply dcl_T2; eauto.
     + apply (t2_dcl _ _ B c Hc E D2 D3).
-Abort.
+Qed.
 
+
+Hypothesis P0 : Pre s0.
+
+Lemma filter_all {A} (l : list A) : filter (fun _ => true) l = l.
+Proof. induction l; cbn; congruence. Qed.
+
+Lemma In_obs m l : In (ob m) (obs l) <-> In m l.
+Proof.
+  unfold FL.obs. rewrite in_map_iff. split.
+  - intros (x & E & Hx). injection E as <-. exact Hx.
+  - intros Hm. exists m. split; [reflexivity|exact Hm].
+Qed.
+
+Lemma obs_inj l : forall l', obs l = obs l' -> l = l'.
+Proof.
+  induction l as [|x l IH]; intros [|y l'] E; try discriminate; auto.
+  cbn in E. injection E as -> E. f_equal. apply IH. exact E.
+Qed.
+
+Lemma Step_refl : Step s0.
+Proof.
+  constructor; auto using crel_refl.
+  - exists (fun _ => true). symmetry. apply filter_all.
+  - intros c l Hc E D Ea. split; [left; reflexivity|]. unfold rho. symmetry. apply follow_idem. apply P0.
+  - intros c l m Hc E D Ea Hm N. exfalso. apply N. rewrite Ea. apply In_obs. apply (FL.mins_of_in H). exact Hm.
+Qed.
+
+Lemma in_range s c : LW s -> In c (cset_of s i) -> c < length (constrs s).
+Proof. intros L Hc. eapply inv_cs; [apply L|exact Hc]. Qed.
+
+Lemma in_range0 s c : Step s -> In c (cset_of s0 i) -> c < length (constrs s).
+Proof. intros S Hc. rewrite (st_clen s S). apply (in_range s0 c); [apply P0|exact Hc]. Qed.
+
+Lemma csi_incl s c : Step s -> In c (cset_of s i) -> In c (cset_of s0 i).
+Proof. intros S Hc. destruct (st_csi s S) as (P & E). rewrite E in Hc. apply filter_In in Hc. apply Hc. Qed.
+
+(* the alternatives declared in s0 *)
+Lemma alts0 c : In c (cset_of s0 i) -> k_elim (constr_of s0 c) = true ->
+  exists l, Forall gd l /\ k_alts (constr_of s0 c) = obs l /\ PI H l.
+Proof.
+  intros Hc E. destruct P0 as (L & _). pose proof (in_range s0 c L Hc) as Lc.
+  pose proof (lw_kw s0 L c Lc) as Sh. unfold shape in Sh. rewrite E in Sh. destruct Sh as (l & G & Ea).
+  exists l. split; [exact G|split; [exact Ea|]]. apply (lw_pi s0 L c l Lc E Ea).
+Qed.
+
+Lemma kind_elim s c : Step s -> In c (cset_of s0 i) -> k_elim (constr_of s0 c) = true ->
+  k_elim (constr_of s c) = true.
+Proof.
+  intros S Hc E. destruct (k_done (constr_of s0 c)) eqn:D.
+  - rewrite (st_don s S c E D). exact E.
+  - destruct (alts0 c Hc E) as (l & _ & Ea & _).
+    destruct (st_elm s S c l Hc E D Ea) as ([X|(r & P & d & X)] & _); rewrite X; auto.
+Qed.
+
+Lemma kind_sub s c : Step s -> k_elim (constr_of s0 c) = false -> k_elim (constr_of s c) = false.
+Proof. intros S E. destruct (st_sub s S c E) as [X|X]; rewrite X; auto. Qed.
+
+Lemma kind_eq s c : Step s -> In c (cset_of s0 i) -> k_elim (constr_of s c) = k_elim (constr_of s0 c).
+Proof.
+  intros S Hc. destruct (k_elim (constr_of s0 c)) eqn:E; [apply kind_elim|apply kind_sub]; auto.
+Qed.
+
+(* ------------------------------------------------------------------ *)
+(* updating the cell of an active variable                              *)
+(* ------------------------------------------------------------------ *)
+Lemma cells_after s w c' : act s w -> ref (cell_of s w) c' ->
+  forall w', crel (cell_of s w') (cell_of (set_cell s w c') w').
+Proof.
+  intros (Lw & U & Ci) R w'. destruct (cell_of_set_cell s w c' w') as [(E & -> & _)|E]; rewrite E.
+  - right. auto.
+  - left. reflexivity.
+Qed.
+
+Lemma gd_of_mins c l m : In c (cset_of s0 i) -> k_elim (constr_of s0 c) = true ->
+  k_alts (constr_of s0 c) = obs l -> In m (mins_of l) -> gd m.
+Proof.
+  intros Hc E Ea Hm. destruct (alts0 c Hc E) as (l' & G & Ea' & _). rewrite Ea in Ea'.
+  assert (l' = l) by (apply obs_inj; symmetry; exact Ea').
+  subst l'. rewrite Forall_forall in G. apply G. apply (FL.mins_of_in H). exact Hm.
+Qed.
+
+Lemma cell_upd_pres s w c' : Step s -> Pre s -> act s w -> ref (cell_of s w) c' -> bok c' ->
+  Step (set_cell s w c') /\ Pre (set_cell s w c').
+Proof.
+  intros S (L & Hr & Sd) A R Bk. pose proof (cells_after s w c' A R) as C.
+  set (s' := set_cell s w c') in *.
+  destruct A as (Lw & U & Ci).
+  assert (I' : inv s').
+  { destruct R as (Ci' & Ll & Wd & D). destruct Bk as (Bl & Bu & _).
+    apply inv_set_cell; [apply L| | | | |].
+    - intros E. destruct (Bl _ E) as (_ & _ & X). apply X. reflexivity.
+    - intros E. destruct (Bu _ E) as (_ & _ & X). apply X. reflexivity.
+    - destruct D as [(Bn & _)|(a & -> & _)]; [left; rewrite Bn; symmetry; exact U|].
+      right. split; [exact U|]. exists (O a []). cbn. repeat split; try discriminate.
+      intros _. apply nocc_op. intros x [].
+    - intros t Ht _. destruct D as [(Bn & _)|(a & -> & _)]; [congruence|].
+      cbn in Ht. injection Ht as <-. constructor. constructor.
+    - intros _ _. rewrite Ci', <- Ci. apply (sc_cs (proj2 (lw_inv s L) eq_refl)). exact Lw. }
+  assert (B' : forall v, bok (cell_of s' v)).
+  { intros v. unfold s'. destruct (cell_of_set_cell s w c' v) as [(E & _ & _)|E]; rewrite E; [exact Bk|apply L]. }
+  assert (L' : LW s').
+  { constructor; [exact I'|exact B'|exact (lw_kw s L)|exact (lw_pi s L)]. }
+  split; [|split; [exact L'|split]].
+  - constructor.
+    + unfold s'. cbn. rewrite upd_length. apply S.
+    + exact (st_clen s S).
+    + intros v. eapply crel_trans; [apply (st_cell s S)|apply C].
+    + exact (st_cso s S).
+    + exact (st_csi s S).
+    + exact (st_rm s S).
+    + exact (st_out s S).
+    + exact (st_sub s S).
+    + exact (st_don s S).
+    + intros c l Hc E D Ea. destruct (st_elm s S c l Hc E D Ea) as (F & Ef). split; [exact F|].
+      change (constr_of s' c) with (constr_of s c).
+      rewrite <- (follow_ext s s' _ I' (crel_bext s s' C)), Ef. apply follow_ext; [exact I'|apply crel_bext; exact C].
+    + intros c l m Hc E D Ea Hm N. change (constr_of s' c) with (constr_of s c) in N.
+      pose proof (st_keeps s S c l m Hc E D Ea Hm N) as K.
+      destruct (kp H s' (rho c) m) eqn:K'; [|reflexivity].
+      rewrite (kp_mono s s' (rho c) m (lw_inv s L) I' (lw_bok s L) B' (gd_of_mins c l m Hc E Ea Hm) C K') in K.
+      discriminate.
+  - intros c w' Hc E D Ef. change (constr_of s' c) with (constr_of s c) in *.
+    change (cset_of s' i) with (cset_of s i) in Hc.
+    pose proof (follow_var_back s s' _ w' (lw_inv s L) I' C Ef) as Ef0.
+    assert (U' : unb s' w').
+    { pose proof (@Inv.follow_unbound true s' (k_ref (constr_of s c)) I') as N. rewrite Ef in N. exact N. }
+    assert (A' : act s w' -> act s' w').
+    { intros (X & _ & Z). split; [unfold s'; cbn; rewrite upd_length; exact X|split; [exact U'|]].
+      rewrite (crel_cs _ _ (C w')). exact Z. }
+    destruct (Hr c w' Hc E D Ef0) as [Aw|St]; [left; auto|].
+    destruct (Nat.eq_dec w' w) as [->|Nw].
+    + left. apply A'. repeat split; assumption.
+    + right. destruct St as (Dn & En & l & Ea & An & Le & Kp). unfold stlE.
+      change (constr_of s' c) with (constr_of s c).
+      rewrite En in Ef0.
+      assert (U0 : unb s w') by (eapply crel_unb; [apply C|exact U']).
+      split; [exact Dn|split; [rewrite Ef0; apply Lub.follow_V_unbound; exact U'|]].
+      exists l. repeat split; auto. intros m Hm. rewrite <- (Kp m Hm).
+      rewrite Ef0. unfold kp. rewrite (Lub.follow_V_unbound s' w' U'), (Lub.follow_V_unbound s w' U0).
+      unfold s'. rewrite cell_of_set_cell_other by exact Nw. reflexivity.
+  - intros c Hc E D. change (constr_of s' c) with (constr_of s c) in *.
+    pose proof (in_range0 s c S Hc) as Lc.
+    pose proof (lw_kw s L c Lc) as Sh. unfold shape in Sh. rewrite E in Sh. destruct Sh as (a & Ea & Ba).
+    apply (vd_done_mono s s' _ a (lw_inv s L) I' C Ea Ba). apply Sd; auto.
+Qed.
+
+
+(* ------------------------------------------------------------------ *)
+(* updating a constraint record / the constraint set                    *)
+(* ------------------------------------------------------------------ *)
+Lemma filter_filter2 {A} (p q : A -> bool) l : filter q (filter p l) = filter (fun x => p x && q x) l.
+Proof.
+  induction l as [|x l IH]; [reflexivity|]. cbn [filter].
+  destruct (p x); cbn [filter andb]; [destruct (q x)|]; rewrite IH; reflexivity.
+Qed.
+
+Lemma kp_vars s s' r m : vars s = vars s' -> kp H s r m = kp H s' r m.
+Proof.
+  intros E. unfold kp. rewrite (follow_vars s s' r E).
+  destruct (follow s' r); [rewrite (cell_of_vars s s' _ E)|]; reflexivity.
+Qed.
+
+Lemma kp_follow s r r' m : follow s r = follow s r' -> kp H s r m = kp H s r' m.
+Proof. unfold kp. intros ->. reflexivity. Qed.
+
+Lemma stlE_same s s' c : vars s' = vars s -> constr_of s' c = constr_of s c -> stlE s c -> stlE s' c.
+Proof.
+  intros Ev Ek (Dn & En & l & Ea & An & Le & Kp). unfold stlE. rewrite Ek.
+  split; [exact Dn|split; [rewrite (follow_vars s' s _ Ev); exact En|]].
+  exists l. repeat split; auto. intros m Hm. rewrite (kp_vars s' s _ m Ev). auto.
+Qed.
+
+Lemma act_same s s' w : vars s' = vars s -> act s w -> act s' w.
+Proof. unfold act, unb. intros Ev. rewrite (cell_of_vars s' s w Ev), Ev. auto. Qed.
+
+(* what the alternatives of a pending elimination constraint look like *)
+Lemma elm_form s c l0 ls : Step s -> In c (cset_of s0 i) -> k_elim (constr_of s0 c) = true ->
+  k_done (constr_of s0 c) = false -> k_alts (constr_of s0 c) = obs l0 ->
+  k_alts (constr_of s c) = obs ls ->
+  k_strict (constr_of s c) = k_strict (constr_of s0 c) /\ PI H ls /\
+  (exists P, mins_of ls = filter P (mins_of l0)) /\
+  (forall m, In m (mins_of l0) -> ~ In m (mins_of ls) -> ~ In (ob m) (k_alts (constr_of s c))).
+Proof.
+  intros S Hc E D Ea Es. destruct (alts0 c Hc E) as (l' & G & Ea' & Pi).
+  rewrite Ea in Ea'. apply obs_inj in Ea'. subst l'.
+  destruct (st_elm s S c l0 Hc E D Ea) as ([X|(r & P & d & X)] & _).
+  - rewrite X, Ea in Es. apply obs_inj in Es. subst ls. rewrite X.
+    split; [reflexivity|split; [exact Pi|split]].
+    + exists (fun _ => true). symmetry. apply filter_all.
+    + intros m Hm N. contradiction.
+  - rewrite X in Es. cbn [k_alts] in Es. apply obs_inj in Es. subst ls. rewrite X. cbn [k_strict k_alts].
+    split; [reflexivity|split; [|split]].
+    + apply anti_PI, anti_filter, (mins_of_PI H l0 Pi).
+    + exists P. apply (mins_of_filter_mins H P l0 Pi).
+    + intros m Hm N. rewrite (mins_of_filter_mins H P l0 Pi) in N. rewrite In_obs. exact N.
+Qed.
+
+Lemma elim_upd_pres s c l0 ls Q d :
+  Step s -> Pre s -> In c (cset_of s0 i) -> k_elim (constr_of s0 c) = true ->
+  k_done (constr_of s0 c) = false -> k_alts (constr_of s0 c) = obs l0 ->
+  k_done (constr_of s c) = false -> k_alts (constr_of s c) = obs ls ->
+  (forall m, In m (mins_of ls) -> Q m = false -> kp H s (k_ref (constr_of s c)) m = false) ->
+  (d = false -> forall w, follow s (k_ref (constr_of s c)) = V w -> act s w) ->
+  let k := constr_of s c in
+  let s' := set_constr s c (mkConstr true (follow s (k_ref k)) (obs (filter Q (mins_of ls))) (k_strict k) d) in
+  Step s' /\ Pre s'.
+Proof.
+  intros S (L & Hr & Sd) Hc E D Ea Dn Es HQ HA k s'.
+  pose proof (in_range0 s c S Hc) as Lc.
+  destruct (elm_form s c l0 ls S Hc E D Ea Es) as (Est & Pis & (P1 & EP1) & Hdrop).
+  pose proof (kind_elim s c S Hc E) as Ek.
+  pose proof (lw_kw s L c Lc) as Sh. unfold shape in Sh. rewrite Ek, Es in Sh.
+  destruct Sh as (l' & Gl & El'). apply obs_inj in El'. subst l'.
+  assert (Ev : vars s' = vars s) by reflexivity.
+  assert (Csame : forall c', c' <> c -> constr_of s' c' = constr_of s c').
+  { intros c' N. unfold s'. destruct (constr_of_set_constr s c (mkConstr true (follow s (k_ref k)) (obs (filter Q (mins_of ls))) (k_strict k) d) c') as [(_ & X & _)|X]; [contradiction|exact X]. }
+  assert (Cc : constr_of s' c = mkConstr true (follow s (k_ref k)) (obs (filter Q (mins_of ls))) (k_strict k) d).
+  { unfold s'. apply constr_of_set_constr_same. exact Lc. }
+  assert (G2 : Forall gd (filter Q (mins_of ls))).
+  { apply incl_Forall with (l1 := mins_of ls); [apply incl_filter|apply FL.mins_of_good; exact Gl]. }
+  assert (I' : inv s').
+  { apply inv_set_constr; [apply L|discriminate|].
+    cbn [constr_terms k_ref k_alts]. constructor.
+    - apply follow_sct; [apply L|].
+      pose proof (@scts_of_constr true s c (lw_inv s L) Lc) as F. inversion F; assumption.
+    - rewrite Forall_forall. intros x Hx _. unfold FL.obs in Hx. apply in_map_iff in Hx.
+      destruct Hx as (m & <- & _). constructor. constructor. }
+  split; [|split; [|split]].
+  - constructor.
+    + exact (st_len s S).
+    + unfold s'. cbn. rewrite upd_length. apply S.
+    + exact (st_cell s S).
+    + exact (st_cso s S).
+    + exact (st_csi s S).
+    + intros c' Hc' N. destruct (Nat.eq_dec c' c) as [->|Nc].
+      * exfalso. pose proof (st_rm s S c Hc N) as X. congruence.
+      * rewrite (Csame c' Nc). apply (st_rm s S c' Hc' N).
+    + intros c' N. rewrite Csame by (intros ->; contradiction). apply (st_out s S c' N).
+    + intros c' E'. rewrite Csame by (intros ->; congruence). apply (st_sub s S c' E').
+    + intros c' E' D'. rewrite Csame by (intros ->; congruence). apply (st_don s S c' E' D').
+    + intros c' l Hc' E' D' Ea'. destruct (Nat.eq_dec c' c) as [->|Nc].
+      * rewrite Ea in Ea'. apply obs_inj in Ea'. subst l. rewrite Cc. cbn [k_ref]. split.
+        -- right. exists (follow s (k_ref k)), (fun x => P1 x && Q x), d.
+           rewrite EP1, filter_filter2. unfold k. rewrite Est. reflexivity.
+        -- rewrite !(follow_vars s' s _ Ev). rewrite follow_idem by apply L.
+           apply (proj2 (st_elm s S c l0 Hc E D Ea)).
+      * rewrite (Csame c' Nc). destruct (st_elm s S c' l Hc' E' D' Ea') as (F & Ef). split; [exact F|].
+        rewrite !(follow_vars s' s _ Ev). exact Ef.
+    + intros c' l m Hc' E' D' Ea' Hm N. rewrite <- (kp_vars s s' _ m (eq_sym Ev)).
+      destruct (Nat.eq_dec c' c) as [->|Nc].
+      * rewrite Ea in Ea'. apply obs_inj in Ea'. subst l. rewrite Cc in N. cbn [k_alts] in N. rewrite In_obs in N.
+        destruct (in_dec Nat.eq_dec m (mins_of ls)) as [Hin|Hout].
+        -- assert (Qm : Q m = false).
+           { destruct (Q m) eqn:Qm; [|reflexivity]. exfalso. apply N. apply filter_In. auto. }
+           rewrite <- (HQ m Hin Qm). apply kp_follow. symmetry. apply (proj2 (st_elm s S c l0 Hc E D Ea)).
+        -- apply (st_keeps s S c l0 m Hc E D Ea Hm). apply Hdrop; auto.
+      * rewrite (Csame c' Nc) in N. apply (st_keeps s S c' l m Hc' E' D' Ea' Hm N).
+  - constructor; [exact I'|exact (lw_bok s L)| |].
+    + intros c' Lc'. unfold s' in Lc'. cbn in Lc'. rewrite upd_length in Lc'.
+      destruct (Nat.eq_dec c' c) as [->|Nc]; [|rewrite (Csame c' Nc); apply (lw_kw s L c' Lc')].
+      rewrite Cc. unfold shape. cbn [k_elim k_alts]. eauto.
+    + intros c' l Lc' E' Ea'. unfold s' in Lc'. cbn in Lc'. rewrite upd_length in Lc'.
+      destruct (Nat.eq_dec c' c) as [->|Nc]; [|rewrite (Csame c' Nc) in *; apply (lw_pi s L c' l Lc' E' Ea')].
+      rewrite Cc in Ea'. cbn [k_alts] in Ea'. apply obs_inj in Ea'. subst l.
+      apply anti_PI, anti_filter, (mins_of_PI H ls Pis).
+  - intros c' w Hc' E' D' Ef. change (cset_of s' i) with (cset_of s i) in Hc'.
+    rewrite (follow_vars s' s _ Ev) in Ef.
+    destruct (Nat.eq_dec c' c) as [->|Nc].
+    + rewrite Cc in D', Ef. cbn [k_done k_ref] in D', Ef. left. apply (act_same s s' w Ev).
+      apply (HA D' w). rewrite <- Ef. symmetry. apply follow_idem. apply L.
+    + rewrite (Csame c' Nc) in E', D', Ef.
+      destruct (Hr c' w Hc' E' D' Ef) as [A|St]; [left; apply (act_same s s' w Ev A)|right].
+      apply (stlE_same s s' c' Ev (Csame c' Nc) St).
+  - intros c' Hc' E' D'. destruct (Nat.eq_dec c' c) as [->|Nc]; [rewrite Cc in E'; discriminate|].
+    rewrite (Csame c' Nc) in *.
+    rewrite (pfc_vars H 4 s' s (constr_of s c') (constr_of s c') Ev); auto.
+Qed.
+
+
+Lemma sub_mark_pres s c : Step s -> Pre s -> In c (cset_of s0 i) -> k_elim (constr_of s0 c) = false ->
+  vd s (constr_of s c) = PDone -> Step (markd c s) /\ Pre (markd c s).
+Proof.
+  intros S (L & Hr & Sd) Hc E Vd.
+  pose proof (in_range0 s c S Hc) as Lc. pose proof (kind_sub s c S E) as Ek.
+  set (s' := markd c s).
+  assert (Ev : vars s' = vars s) by reflexivity.
+  assert (Csame : forall c', c' <> c -> constr_of s' c' = constr_of s c').
+  { intros c' N. destruct (constr_of_markd c s c') as [X|(X & _)]; [exact X|contradiction]. }
+  assert (Cc : constr_of s' c = done_of (constr_of s c)).
+  { unfold s', markd. apply constr_of_set_constr_same. exact Lc. }
+  pose proof (lw_kw s L c Lc) as Sh. unfold shape in Sh. rewrite Ek in Sh. destruct Sh as (a & Ea & Ba).
+  assert (I' : inv s').
+  { unfold s', markd. apply inv_set_constr; [apply L|cbn; rewrite Ea; reflexivity|].
+    apply (@scts_of_constr true s c (lw_inv s L) Lc). }
+  split; [|split; [|split]].
+  - constructor.
+    + exact (st_len s S).
+    + unfold s', markd. cbn. rewrite upd_length. apply S.
+    + exact (st_cell s S).
+    + exact (st_cso s S).
+    + exact (st_csi s S).
+    + intros c' Hc' N. destruct (Nat.eq_dec c' c) as [->|Nc]; [rewrite Cc; reflexivity|].
+      rewrite (Csame c' Nc). apply (st_rm s S c' Hc' N).
+    + intros c' N. rewrite Csame by (intros ->; contradiction). apply (st_out s S c' N).
+    + intros c' E'. destruct (Nat.eq_dec c' c) as [->|Nc]; [|rewrite (Csame c' Nc); apply (st_sub s S c' E')].
+      right. rewrite Cc. destruct (st_sub s S c E) as [X|X]; rewrite X; reflexivity.
+    + intros c' E' D'. rewrite Csame by (intros ->; congruence). apply (st_don s S c' E' D').
+    + intros c' l Hc' E' D' Ea'. rewrite Csame by (intros ->; congruence).
+      destruct (st_elm s S c' l Hc' E' D' Ea') as (F & Ef). split; [exact F|].
+      rewrite !(follow_vars s' s _ Ev). exact Ef.
+    + intros c' l m Hc' E' D' Ea' Hm N. rewrite Csame in N by (intros ->; congruence).
+      rewrite <- (kp_vars s s' _ m (eq_sym Ev)). apply (st_keeps s S c' l m Hc' E' D' Ea' Hm N).
+  - constructor; [exact I'|exact (lw_bok s L)| |].
+    + intros c' Lc'. unfold s', markd in Lc'. cbn in Lc'. rewrite upd_length in Lc'.
+      destruct (Nat.eq_dec c' c) as [->|Nc]; [|rewrite (Csame c' Nc); apply (lw_kw s L c' Lc')].
+      rewrite Cc. unfold shape. cbn [done_of k_elim k_alts]. eauto.
+    + intros c' l Lc' E' Ea'. unfold s', markd in Lc'. cbn in Lc'. rewrite upd_length in Lc'.
+      destruct (Nat.eq_dec c' c) as [->|Nc]; [rewrite Cc in E'; discriminate|].
+      rewrite (Csame c' Nc) in *. apply (lw_pi s L c' l Lc' E' Ea').
+  - intros c' w Hc' E' D' Ef. change (cset_of s' i) with (cset_of s i) in Hc'.
+    rewrite (follow_vars s' s _ Ev) in Ef.
+    destruct (Nat.eq_dec c' c) as [->|Nc]; [rewrite Cc in E'; discriminate|].
+    rewrite (Csame c' Nc) in E', D', Ef.
+    destruct (Hr c' w Hc' E' D' Ef) as [A|St]; [left; apply (act_same s s' w Ev A)|right].
+    apply (stlE_same s s' c' Ev (Csame c' Nc) St).
+  - intros c' Hc' E' D'. destruct (Nat.eq_dec c' c) as [->|Nc].
+    + rewrite Cc. rewrite (pfc_vars H 4 s' s (done_of (constr_of s c)) (constr_of s c) Ev); auto.
+    + rewrite (Csame c' Nc) in *.
+      rewrite (pfc_vars H 4 s' s (constr_of s c') (constr_of s c') Ev); auto.
+Qed.
+
+(* stores with the same cells and records *)
+Definition sameVC (s s' : store) : Prop := vars s' = vars s /\ constrs s' = constrs s.
+
+Lemma constr_of_same s s' c : constrs s' = constrs s -> constr_of s' c = constr_of s c.
+Proof. unfold constr_of. intros ->. reflexivity. Qed.
+
+Lemma settled_same s s' c : sameVC s s' -> settled s c -> settled s' c.
+Proof.
+  intros (Ev & Ek). unfold settled, stlS. rewrite (constr_of_same s s' c Ek).
+  destruct (k_elim (constr_of s c)).
+  - apply stlE_same; [exact Ev|apply constr_of_same; exact Ek].
+  - rewrite (pfc_vars H 4 s' s (constr_of s c) (constr_of s c) Ev); auto.
+Qed.
+
+(* removing a fulfilled constraint from the set; replacing the schedule *)
+Lemma cset_pres s s' P : Step s -> Pre s -> sameVC s s' ->
+  (forall j, j <> i -> cset_of s' j = cset_of s j) ->
+  cset_of s' i = filter P (cset_of s i) ->
+  (forall c, In c (cset_of s i) -> P c = false -> k_done (constr_of s c) = true) ->
+  inv s' -> Step s' /\ Pre s'.
+Proof.
+  intros S (L & Hr & Sd) (Ev & Ek) Co Ci Hd I'.
+  assert (Ec : forall c, constr_of s' c = constr_of s c) by (intros c; apply constr_of_same; exact Ek).
+  split; [|split; [|split]].
+  - constructor.
+    + rewrite Ev. apply S.
+    + rewrite Ek. apply S.
+    + intros w. rewrite (cell_of_vars s' s w Ev). apply S.
+    + intros j Nj. rewrite (Co j Nj). apply (st_cso s S j Nj).
+    + destruct (st_csi s S) as (P1 & E1). exists (fun x => P1 x && P x). rewrite Ci, E1. apply filter_filter2.
+    + intros c Hc N. rewrite Ec. destruct (in_dec Nat.eq_dec c (cset_of s i)) as [Hin|Hout].
+      * apply Hd; [exact Hin|]. destruct (P c) eqn:Pc; [|reflexivity]. exfalso. apply N. rewrite Ci. apply filter_In. auto.
+      * apply (st_rm s S c Hc Hout).
+    + intros c N. rewrite Ec. apply (st_out s S c N).
+    + intros c E. rewrite Ec. apply (st_sub s S c E).
+    + intros c E D. rewrite Ec. apply (st_don s S c E D).
+    + intros c l Hc E D Ea. rewrite Ec. destruct (st_elm s S c l Hc E D Ea) as (F & Ef). split; [exact F|].
+      rewrite !(follow_vars s' s _ Ev). exact Ef.
+    + intros c l m Hc E D Ea Hm N. rewrite Ec in N. rewrite (kp_vars s' s _ m Ev).
+      apply (st_keeps s S c l m Hc E D Ea Hm N).
+  - constructor; [exact I'| | |].
+    + intros v. rewrite (cell_of_vars s' s v Ev). apply L.
+    + intros c Lc. rewrite Ec. apply (lw_kw s L). rewrite <- Ek. exact Lc.
+    + intros c l Lc. rewrite Ec. apply (lw_pi s L). rewrite <- Ek. exact Lc.
+  - intros c w Hc E D Ef. rewrite Ci in Hc. apply filter_In in Hc. destruct Hc as (Hc & _).
+    rewrite Ec in E, D, Ef. rewrite (follow_vars s' s _ Ev) in Ef.
+    destruct (Hr c w Hc E D Ef) as [A|St]; [left; apply (act_same s s' w Ev A)|right].
+    apply (stlE_same s s' c Ev (Ec c) St).
+  - intros c Hc E D. rewrite Ec in *. rewrite (pfc_vars H 4 s' s (constr_of s c) (constr_of s c) Ev); auto.
+Qed.
+
+Lemma T2_sameVC s s1 s2 : sameVC s1 s2 -> T2 s s1 -> T2 s s2.
+Proof.
+  intros (Ev & Ek) T.
+  assert (Ec : forall c, constr_of s2 c = constr_of s1 c) by (intros c; apply constr_of_same; exact Ek).
+  constructor.
+  - intros w. rewrite (cell_of_vars s2 s1 w Ev). apply T.
+  - intros w a. unfold unb. rewrite (cell_of_vars s2 s1 w Ev). apply (t2_ne _ _ T).
+  - intros c. rewrite Ec. apply T.
+  - intros c. rewrite Ec. apply T.
+  - intros c Hc E D1 D2. rewrite Ec in *. destruct (t2_dcl _ _ T c Hc E D1 D2) as (m & Ea & Dc).
+    exists m. split; [exact Ea|]. destruct (rho c) as [w|o xs]; [|exact Dc].
+    unfold dcl, dclv, unb in *. rewrite (cell_of_vars s2 s1 w Ev). exact Dc.
+Qed.
+
+Lemma T2_sameVC_l s1 s2 s : sameVC s1 s2 -> T2 s2 s -> T2 s1 s.
+Proof.
+  intros (Ev & Ek) T.
+  assert (Ec : forall c, constr_of s2 c = constr_of s1 c) by (intros c; apply constr_of_same; exact Ek).
+  constructor.
+  - intros w. rewrite <- (cell_of_vars s2 s1 w Ev). apply T.
+  - intros w a. rewrite <- (cell_of_vars s2 s1 w Ev). apply (t2_ne _ _ T).
+  - intros c. rewrite <- Ec. apply T.
+  - intros c. rewrite <- Ec. apply T.
+  - intros c Hc E. rewrite <- Ec. apply (t2_dcl _ _ T c Hc E).
+Qed.
+
+(* a record update that fulfils nothing *)
+Lemma T2_constr s s' : vars s' = vars s ->
+  (forall c, k_done (constr_of s c) = true -> constr_of s' c = constr_of s c) ->
+  (forall c, k_done (constr_of s' c) = true -> k_done (constr_of s c) = true) ->
+  T2 s s'.
+Proof.
+  intros Ev Hf Hd. constructor.
+  - intros w. rewrite (cell_of_vars s' s w Ev). apply crel_refl.
+  - intros w a _ _. rewrite (cell_of_vars s' s w Ev). auto.
+  - intros c D. rewrite (Hf c D). exact D.
+  - intros c _ D. apply Hf. exact D.
+  - intros c _ _ D1 D2. rewrite (Hd c D2) in D1. discriminate.
+Qed.
+
+
+Lemma set_cell_twice s v c1 c2 : set_cell (set_cell s v c1) v c2 = set_cell s v c2.
+Proof. cbn. f_equal. apply si_upd_upd. Qed.
+
+Lemma wp_ret_bind {A B} (a : A) (k : A -> M B) s (Q : B -> store -> Prop) E :
+  wp (k a) s Q E -> wp (bindM (ret a) k) s Q E.
+Proof. intros T. exact T. Qed.
+
+Lemma T2_prefix s s1 s' w : constrs s1 = constrs s ->
+  (forall w', w' <> w -> cell_of s1 w' = cell_of s w') ->
+  crel (cell_of s w) (cell_of s1 w) -> T2 s1 s' ->
+  (forall a, unb s' w -> c_lower (cell_of s' w) = Some a -> c_upper (cell_of s' w) = Some a ->
+             c_upper (cell_of s w) = Some a) ->
+  T2 s s'.
+Proof.
+  intros Ek Eo Cw T Ne.
+  assert (Ec : forall c, constr_of s1 c = constr_of s c) by (intros c; apply constr_of_same; exact Ek).
+  constructor.
+  - intros w'. destruct (Nat.eq_dec w' w) as [->|N].
+    + eapply crel_trans; [exact Cw|apply T].
+    + rewrite <- (Eo w' N). apply T.
+  - intros w' a U L Up. destruct (Nat.eq_dec w' w) as [->|N]; [apply Ne; auto|].
+    rewrite <- (Eo w' N). apply (t2_ne _ _ T w' a U L Up).
+  - intros c. rewrite <- Ec. apply T.
+  - intros c. rewrite <- Ec. apply T.
+  - intros c Hc E. rewrite <- Ec. apply (t2_dcl _ _ T c Hc E).
+Qed.
+
+(* ================================================================== *)
+(* the specifications, relative to the end [t] of another run           *)
+(* ================================================================== *)
+Section D.
+Variable t : store.
+Hypothesis FS : Step t.
+Hypothesis FP : Pre t.
+Hypothesis FT : T2 s0 t.
+Hypothesis FL' : Stl t.
+
+Definition G (s s' : store) : Prop := Step s' /\ Pre s' /\ T2 s s'.
+Definition efuel (P : Prop) (e : err) : Prop := e = EFuel \/ ~ P.
+
+Definition ceqw (c c' : cell) : Prop :=
+  c_bound c' = c_bound c /\ c_lower c' = c_lower c /\ c_upper c' = c_upper c /\ c_cs c' = c_cs c.
+
+Definition QuietB (s s' : store) : Prop :=
+  (forall w, ceqw (cell_of s w) (cell_of s' w)) /\ constrs s' = constrs s /\ csets s' = csets s /\
+  len s' = len s.
+
+Definition SP_cc f := forall v s, Step s -> Pre s -> c_cs (cell_of s v) = i ->
+  wp (check_constraints H f v) s
+     (fun _ s' => G s s' /\ Stl s' /\ (Dom s t -> Dom s' t)) (efuel (Dom s t)).
+
+Definition SP_bindb f := forall w a s, Step s -> Pre s -> act s w ->
+  c_lower (cell_of s w) = Some a -> c_upper (cell_of s w) = Some a ->
+  wp (bind H f w (O a [])) s
+     (fun _ s' => G s s' /\ Stl s' /\ ~ unb s' w /\ (Dom s t -> ~ unb t w -> Dom s' t))
+     (efuel (Dom s t /\ ~ unb t w)).
+
+Definition SP_below f := forall w m s, Step s -> Pre s -> act s w -> gd m ->
+  kpc H (cell_of s w) m = true ->
+  wp (below H f w m) s
+     (fun _ s' => G s s' /\ dclv s' w m /\ (QuietB s s' \/ Stl s') /\
+                  (Dom s t -> dclv t w m -> Dom s' t))
+     (efuel (Dom s t /\ dclv t w m)).
+
+Lemma bok_basic c a : bok c -> c_lower c = Some a -> variance H a = [] /\ a <> Bottom /\ a <> Top.
+Proof. intros (Bl & _) E. apply Bl. exact E. Qed.
+
+Lemma bindb_step f : SP_cc f -> SP_bindb (S f).
+Proof.
+  intros CC w a s S P A El Eu. pose proof A as (Lw & U & Ci). pose proof P as (L & _).
+  destruct (bok_basic _ a (lw_bok s L w) El) as (Va & NBa & NTa).
+  assert (Ba : basic H a = true) by (unfold basic, arity; rewrite Va; reflexivity).
+  rewrite Inv.bind_S. apply wp_gets. unfold unb in U. rewrite U.
+  unfold set_wild at 1. apply wp_upd_cell. unfold set_bound at 1. apply wp_upd_cell.
+  rewrite set_cell_twice. rewrite cell_of_set_cell_same by exact Lw. cbn [c_wild c_lower c_upper c_cs].
+  rewrite El, Eu, Ci. fold (bcell a). rewrite Ba.
+  rewrite (Lub.osubT_irrefl H W a NTa NBa). apply wp_ret_bind.
+  set (sb := set_cell s w (bcell a)).
+  assert (R : ref (cell_of s w) (bcell a)).
+  { split; [reflexivity|split; [symmetry; exact El|split; [discriminate|]]].
+    right. exists a. split; [reflexivity|split; [exact El|]]. intros u Hu. rewrite Eu in Hu. injection Hu as <-. apply Lub.ole_refl. }
+  assert (Bk : bok (bcell a)).
+  { pose proof (lw_bok s L w) as (B1 & B2 & B3). split; [|split]; cbn.
+    - intros l [= <-]. apply (B1 a El).
+    - intros u [= <-]. apply (B2 a Eu).
+    - intros l u [= <-] [= <-]. apply Lub.ole_refl. }
+  destruct (cell_upd_pres s w (bcell a) S P A R Bk) as (Sb & Pb). fold sb in Sb, Pb.
+  assert (Cb : cell_of sb w = bcell a) by (apply cell_of_set_cell_same; exact Lw).
+  eapply wp_conseq; [apply (CC w sb Sb Pb); rewrite Cb; reflexivity| |].
+  - intros _ s' ((S' & P' & T') & St & Dm).
+    assert (Bw : cell_of s' w = bcell a).
+    { rewrite <- Cb. apply (crel_bound _ _ (O a []) (t2_cell _ _ T' w)). rewrite Cb. reflexivity. }
+    split; [split; [exact S'|split; [exact P'|]]|split; [exact St|split]].
+    + apply (T2_prefix s sb s' w); [reflexivity| |rewrite Cb; right; auto|exact T'|].
+      * intros w' N. apply cell_of_set_cell_other. exact N.
+      * intros x Ux. unfold unb in Ux. rewrite Bw in Ux. discriminate.
+    + unfold unb. rewrite Bw. discriminate.
+    + intros D Nt. apply Dm. intros w'. destruct (Nat.eq_dec w' w) as [->|N].
+      * rewrite Cb. left. destruct (D w) as [Et|(_ & _ & (_ & Lt & _ & Dd))].
+        -- exfalso. apply Nt. unfold unb. rewrite Et. exact U.
+        -- destruct Dd as [(Bn & _)|(a' & Et & La' & _)]; [contradiction|].
+           rewrite Et. rewrite El in La'. injection La' as <-. reflexivity.
+      * unfold sb. rewrite cell_of_set_cell_other by exact N. apply D.
+  - intros e [->|Ne]; [left; reflexivity|right]. intros (D & Nt). apply Ne.
+    intros w'. destruct (Nat.eq_dec w' w) as [->|N].
+    + rewrite Cb. left. destruct (D w) as [Et|(_ & _ & (_ & Lt & _ & Dd))].
+      * exfalso. apply Nt. unfold unb. rewrite Et. exact U.
+      * destruct Dd as [(Bn & _)|(a' & Et & La' & _)]; [contradiction|].
+        rewrite Et. rewrite El in La'. injection La' as <-. reflexivity.
+    + unfold sb. rewrite cell_of_set_cell_other by exact N. apply D.
+Qed.
+
+
+(* ---- below on an active variable ---- *)
+Definition btail (f w : nat) : M unit :=
+  c' <- gets (fun s => cell_of s w) ;;
+  match c_bound c', c_upper c', c_lower c' with
+  | None, Some u, Some l => if Nat.eqb u l then bind H f w (O u []) else ret tt
+  | _, _, _ => ret tt
+  end.
+
+Definition bset (f w m : nat) : M unit := set_upper w (Some m) ;;; check_constraints H f w.
+
+Lemma below_eq f v new :
+  below H (S f) v new =
+  if Nat.eqb new Bottom then bind H f v (O Bottom [])
+  else
+    set_wild v false ;;;
+    c <- gets (fun s => cell_of s v) ;;
+    match c_bound c with
+    | Some t => unify H f true false false t (O new [])
+    | None =>
+        (match c_lower c, c_upper c with
+         | Some l, _ =>
+             if osub H true new l then fail ESubtypeMismatch
+             else if negb (osub H false l new) then fail ESubtypeMismatch
+             else match c_upper c with
+                  | Some u =>
+                      if osub H true u new then ret tt
+                      else if osub H false new u then bset f v new
+                      else fail ESubtypeMismatch
+                  | None => bset f v new
+                  end
+         | None, Some u =>
+             if osub H true u new then ret tt
+             else if osub H false new u then bset f v new
+             else fail ESubtypeMismatch
+         | None, None => bset f v new
+         end) ;;; btail f v
+    end.
+Proof. reflexivity. Qed.
+
+Definition neq_lu (s : store) (w : nat) : Prop :=
+  forall a, c_lower (cell_of s w) = Some a -> c_upper (cell_of s w) = Some a -> False.
+
+Lemma btail_spec f w s : SP_bindb f -> Step s -> Pre s -> w < len s -> c_cs (cell_of s w) = i ->
+  wp (btail f w) s
+     (fun _ s' => G s s' /\ (unb s' w -> neq_lu s' w) /\ (s' = s \/ Stl s') /\
+                  (Dom s t -> (unb t w -> neq_lu t w) -> Dom s' t))
+     (efuel (Dom s t /\ (unb t w -> neq_lu t w))).
+Proof.
+  intros BB S P Lw Ci. unfold btail. apply wp_gets.
+  assert (Triv : forall (X : Prop), (unb s w -> neq_lu s w) ->
+     G s s /\ (unb s w -> neq_lu s w) /\ (s = s \/ Stl s) /\ (Dom s t -> X -> Dom s t)).
+  { intros X Hn. split; [split; [exact S|split; [exact P|apply T2_refl]]|]. auto. }
+  destruct (c_bound (cell_of s w)) as [b|] eqn:Hb.
+  { apply wp_ret. apply Triv. intros Ux. unfold unb in Ux. congruence. }
+  destruct (c_upper (cell_of s w)) as [u|] eqn:Hu.
+  2:{ apply wp_ret. apply Triv. intros _ a _ X. rewrite Hu in X. discriminate. }
+  destruct (c_lower (cell_of s w)) as [l|] eqn:Hl.
+  2:{ apply wp_ret. apply Triv. intros _ a X. rewrite Hl in X. discriminate. }
+  destruct (u =? l) eqn:Eul.
+  2:{ apply wp_ret. apply Triv. intros _ a X Y. rewrite Hl in X. rewrite Hu in Y.
+      apply Nat.eqb_neq in Eul. congruence. }
+  apply Nat.eqb_eq in Eul. subst l.
+  eapply wp_conseq; [apply (BB w u s S P); [repeat split; auto|exact Hl|exact Hu]| |].
+  - intros _ s' (Gs & St & Nb & Dm). split; [exact Gs|split; [intros X; contradiction|split; [right; exact St|]]].
+    intros D Nt. apply Dm; [exact D|].
+    intros Ut. destruct (D w) as [Et|(_ & _ & (_ & Lt & _ & Dd))].
+    + apply (Nt Ut u); rewrite Et; assumption.
+    + destruct Dd as [(_ & Uu)|(a' & Et & _)]; [|unfold unb in Ut; rewrite Et in Ut; discriminate].
+      destruct (Uu u Hu) as (u' & Hu' & Le').
+      destruct FP as (Lt' & _). destruct (lw_bok t Lt' w) as (_ & _ & B3).
+      assert (u' = u).
+      { apply (Lub.ole_antisym H W); [exact Le'|]. apply B3; [rewrite Lt; exact Hl|exact Hu']. }
+      subst u'. apply (Nt Ut u); [rewrite Lt; exact Hl|exact Hu'].
+  - intros e [->|Ne]; [left; reflexivity|right]. intros (D & Nt). apply Ne. split; [exact D|].
+    intros Ut. destruct (D w) as [Et|(_ & _ & (_ & Lt & _ & Dd))].
+    + apply (Nt Ut u); rewrite Et; assumption.
+    + destruct Dd as [(_ & Uu)|(a' & Et & _)]; [|unfold unb in Ut; rewrite Et in Ut; discriminate].
+      destruct (Uu u Hu) as (u' & Hu' & Le').
+      destruct FP as (Lt' & _). destruct (lw_bok t Lt' w) as (_ & _ & B3).
+      assert (u' = u).
+      { apply (Lub.ole_antisym H W); [exact Le'|]. apply B3; [rewrite Lt; exact Hl|exact Hu']. }
+      subst u'. apply (Nt Ut u); [rewrite Lt; exact Hl|exact Hu'].
+Qed.
+
+
+Definition cwf (c : cell) : cell := mkCell false (c_bound c) (c_lower c) (c_upper c) (c_cs c).
+Definition cup (c : cell) (m : nat) : cell := mkCell (c_wild c) (c_bound c) (c_lower c) (Some m) (c_cs c).
+
+Lemma crel_wild c ct : crel c ct -> c_wild ct = false -> crel (cwf c) ct.
+Proof.
+  intros [->|(N & Ci & (Ci' & L & Wd & D))] Wf.
+  - left. destruct c; cbn in *; subst; reflexivity.
+  - right. split; [exact N|split; [exact Ci|]]. split; [exact Ci'|split; [exact L|split; [congruence|exact D]]].
+Qed.
+
+Lemma crel_upper c ct m : crel c ct -> c_bound c = None -> c_cs c = i ->
+  (forall u, c_upper c = Some u -> ole m u) ->
+  (c_bound ct = None -> exists u, c_upper ct = Some u /\ ole u m) ->
+  (forall b, c_bound ct = Some b -> exists o, b = O o [] /\ ole o m) ->
+  crel (cup c m) ct.
+Proof.
+  intros R N Ci Hm Hu Hb. destruct R as [->|(_ & _ & (Ci' & L & Wd & D))].
+  - left. destruct (Hu N) as (u & Eu & Le).
+    assert (u = m) by (apply (Lub.ole_antisym H W); [exact Le|apply Hm; exact Eu]). subst u.
+    destruct c; cbn in *; subst; reflexivity.
+  - right. split; [exact N|split; [exact Ci|]]. split; [exact Ci'|split; [exact L|split; [exact Wd|]]].
+    destruct D as [(Bn & _)|(a & Ec & La & _)].
+    + left. split; [exact Bn|]. intros u [= <-]. apply Hu. exact Bn.
+    + right. exists a. split; [exact Ec|split; [exact La|]]. intros u [= <-].
+      destruct (Hb (O a [])) as (o & Eo & Le); [rewrite Ec; reflexivity|]. injection Eo as <-. exact Le.
+Qed.
+
+Lemma dclv_from s1 s' w m u0 : unb s1 w -> c_wild (cell_of s1 w) = false ->
+  c_upper (cell_of s1 w) = Some u0 -> ole u0 m -> crel (cell_of s1 w) (cell_of s' w) ->
+  (unb s' w -> neq_lu s' w) -> dclv s' w m.
+Proof.
+  intros U Wf Hu Le R Ne. destruct R as [Ec|(_ & _ & (_ & L & Wd & D))].
+  - split; [rewrite Ec; exact Wf|split].
+    + intros U'. exists u0. rewrite Ec. split; [exact Hu|split; [exact Le|]].
+      intros X. apply (Ne U' u0); rewrite Ec; assumption.
+    + intros b Hb. rewrite Ec in Hb. unfold unb in U. congruence.
+  - split; [|split].
+    + destruct (c_wild (cell_of s' w)); [|reflexivity]. rewrite Wd in Wf by reflexivity. discriminate.
+    + intros U'. destruct D as [(_ & Uu)|(a & Ec & _)]; [|unfold unb in U'; rewrite Ec in U'; discriminate].
+      destruct (Uu u0 Hu) as (u' & Hu' & Le'). exists u'. split; [exact Hu'|split].
+      * apply (SchedIndepElimA.ole_trans H W u' u0 m); auto.
+      * intros X. apply (Ne U' u'); assumption.
+    + intros b Hb. destruct D as [(Bn & _)|(a & Ec & La & Ua)]; [congruence|].
+      rewrite Ec in Hb. cbn in Hb. injection Hb as <-. exists a. split; [reflexivity|].
+      apply (SchedIndepElimA.ole_trans H W a u0 m); auto.
+Qed.
+
+Lemma dclv_neq s w m : dclv s w m -> unb s w -> neq_lu s w.
+Proof.
+  intros (_ & Uu & _) U a La Ua. destruct (Uu U) as (u & Hu & _ & Ne). rewrite Ua in Hu. injection Hu as <-.
+  apply Ne. exact La.
+Qed.
+
+Lemma below_step f : SP_cc f -> SP_bindb f -> SP_below (S f).
+Proof.
+  intros CC BB w m s S P A Gm Kp. pose proof A as (Lw & U & Ci). pose proof P as (L & _).
+  pose proof Gm as (Vm & NTm & NBm). unfold unb in U.
+  rewrite below_eq. rewrite (proj2 (Nat.eqb_neq m Bottom) NBm).
+  unfold set_wild at 1. apply wp_upd_cell. fold (cwf (cell_of s w)).
+  set (sa := set_cell s w (cwf (cell_of s w))).
+  assert (Ca : cell_of sa w = cwf (cell_of s w)) by (apply cell_of_set_cell_same; exact Lw).
+  assert (Oa : forall w', w' <> w -> cell_of sa w' = cell_of s w').
+  { intros w' N. apply cell_of_set_cell_other. exact N. }
+  assert (Ra : ref (cell_of s w) (cwf (cell_of s w))).
+  { split; [exact Ci|split; [reflexivity|split; [discriminate|]]]. left. split; [exact U|].
+    intros u Hu. exists u. split; [exact Hu|apply Lub.ole_refl]. }
+  assert (Bka : bok (cwf (cell_of s w))) by apply (lw_bok s L w).
+  destruct (cell_upd_pres s w _ S P A Ra Bka) as (Sa & Pa). fold sa in Sa, Pa.
+  assert (Aa : act sa w).
+  { split; [unfold sa; cbn; rewrite upd_length; exact Lw|split; [unfold unb; rewrite Ca; exact U|rewrite Ca; exact Ci]]. }
+  assert (Cra : crel (cell_of s w) (cell_of sa w)) by (rewrite Ca; right; auto).
+  assert (Doma : Dom s t -> dclv t w m -> Dom sa t).
+  { intros D (Wt & _). intros w'. destruct (Nat.eq_dec w' w) as [->|N].
+    - rewrite Ca. apply crel_wild; [apply D|exact Wt].
+    - rewrite (Oa w' N). apply D. }
+  apply wp_gets. rewrite Ca. cbn [cwf c_bound c_lower c_upper]. rewrite U.
+  (* the two possible middle parts *)
+  assert (NOP : forall u, c_upper (cell_of s w) = Some u -> osub H true u m = true ->
+    wp (ret tt ;;; btail f w) sa
+      (fun _ s' => G s s' /\ dclv s' w m /\ (QuietB s s' \/ Stl s') /\ (Dom s t -> dclv t w m -> Dom s' t))
+      (efuel (Dom s t /\ dclv t w m))).
+  { intros u Hu Lt. apply wp_ret_bind.
+    eapply wp_conseq; [apply (btail_spec f w sa BB Sa Pa); [apply Aa|apply Aa]| |].
+    - intros _ s' ((S' & P' & T') & Ne & Q & Dm). split; [split; [exact S'|split; [exact P'|]]|split; [|split]].
+      + apply (T2_prefix s sa s' w); [reflexivity|exact Oa|exact Cra|exact T'|].
+        intros a Ux La Ua. exfalso. apply (Ne Ux a La Ua).
+      + apply (dclv_from sa s' w m u); [apply Aa|rewrite Ca; reflexivity|rewrite Ca; exact Hu| |apply T'|exact Ne].
+        apply (Sound.osubT_true_ole H W). exact Lt.
+      + destruct Q as [->|St]; [left|right; exact St].
+        split; [|split; [reflexivity|split; [reflexivity|unfold sa; cbn; apply upd_length]]].
+        intros w'. destruct (Nat.eq_dec w' w) as [->|N]; [rewrite Ca|rewrite (Oa w' N)]; repeat split.
+      + intros D Dt. apply Dm; [apply Doma; assumption|]. intros Ut. apply (dclv_neq t w m Dt Ut).
+    - intros e [->|Ne]; [left; reflexivity|right]. intros (D & Dt). apply Ne.
+      split; [apply Doma; assumption|]. intros Ut. apply (dclv_neq t w m Dt Ut). }
+  assert (SET : (forall u, c_upper (cell_of s w) = Some u -> ole m u) ->
+    wp (bset f w m ;;; btail f w) sa
+      (fun _ s' => G s s' /\ dclv s' w m /\ (QuietB s s' \/ Stl s') /\ (Dom s t -> dclv t w m -> Dom s' t))
+      (efuel (Dom s t /\ dclv t w m))).
+  { intros Hm. unfold bset. unfold set_upper at 1.
+    set (c1 := cup (cwf (cell_of s w)) m).
+    set (s1 := set_cell sa w c1).
+    assert (R1 : ref (cell_of sa w) c1).
+    { rewrite Ca. split; [exact Ci|split; [reflexivity|split; [discriminate|]]]. left. split; [exact U|].
+      intros u Hu. exists m. split; [reflexivity|apply Hm; exact Hu]. }
+    assert (Bk1 : bok c1).
+    { destruct Bka as (B1 & B2 & B3). split; [exact B1|split].
+      - intros u [= <-]. auto.
+      - intros l u Hl [= <-]. unfold kpc in Kp. cbn in Hl. rewrite Hl in Kp.
+        apply andb_true_iff in Kp. apply (osubF_ole H W). apply Kp. }
+    destruct (cell_upd_pres sa w c1 Sa Pa Aa R1 Bk1) as (S1 & P1). fold s1 in S1, P1.
+    assert (C1 : cell_of s1 w = c1) by (apply cell_of_set_cell_same; apply Aa).
+    assert (O1 : forall w', w' <> w -> cell_of s1 w' = cell_of s w').
+    { intros w' N. unfold s1. rewrite cell_of_set_cell_other by exact N. apply Oa. exact N. }
+    assert (Cr1 : crel (cell_of s w) (cell_of s1 w)).
+    { eapply crel_trans; [exact Cra|]. rewrite C1. right. split; [apply Aa|split; [apply Aa|exact R1]]. }
+    assert (Dom1 : Dom s t -> dclv t w m -> Dom s1 t).
+    { intros D Dt. pose proof (Doma D Dt) as Da. destruct Dt as (Wt & Ut & Bt).
+      intros w'. destruct (Nat.eq_dec w' w) as [->|N]; [|rewrite (O1 w' N); apply D].
+      rewrite C1. unfold c1. apply crel_upper; [rewrite <- Ca; apply Da|exact U|exact Ci|exact Hm| |exact Bt].
+      intros Bn. destruct (Ut Bn) as (u & Hu & Le & _). eauto. }
+    apply wp_bind with (Q1 := fun _ s2 => G s1 s2 /\ Stl s2 /\ (Dom s1 t -> Dom s2 t)).
+    - unfold upd_cell. apply wp_modify. rewrite Ca. change (set_cell sa w _) with s1.
+      eapply wp_conseq; [apply (CC w s1 S1 P1); rewrite C1; exact Ci|auto|].
+      intros e [->|Ne]; [left; reflexivity|right]. intros (D & Dt). apply Ne. apply Dom1; assumption.
+    - intros _ s2 ((S2 & P2 & T12) & St2 & Dm2).
+      assert (Lw2 : w < len s2) by (rewrite (st_len s2 S2), <- (st_len s S); exact Lw).
+      assert (Ci2 : c_cs (cell_of s2 w) = i).
+      { rewrite (crel_cs _ _ (t2_cell _ _ T12 w)), C1. exact Ci. }
+      eapply wp_conseq; [apply (btail_spec f w s2 BB S2 P2 Lw2 Ci2)| |].
+      + intros _ s' ((S' & P' & T') & Ne & Q & Dm). pose proof (T2_trans _ _ _ T12 T') as T1'.
+        split; [split; [exact S'|split; [exact P'|]]|split; [|split]].
+        * apply (T2_prefix s s1 s' w); [reflexivity|exact O1|exact Cr1|exact T1'|].
+          intros a Ux La Ua. exfalso. apply (Ne Ux a La Ua).
+        * apply (dclv_from s1 s' w m m); [unfold unb; rewrite C1; exact U|rewrite C1; reflexivity|rewrite C1; reflexivity|apply Lub.ole_refl|apply T1'|exact Ne].
+        * right. destruct Q as [->|St]; assumption.
+        * intros D Dt. apply Dm; [apply Dm2; apply Dom1; assumption|]. intros Ut. apply (dclv_neq t w m Dt Ut).
+      + intros e [->|Ne]; [left; reflexivity|right]. intros (D & Dt). apply Ne.
+        split; [apply Dm2; apply Dom1; assumption|]. intros Ut. apply (dclv_neq t w m Dt Ut). }
+  assert (F1 : forall l, c_lower (cell_of s w) = Some l ->
+            osub H true m l = false /\ negb (osub H false l m) = false).
+  { intros l Hl. unfold kpc in Kp. rewrite Hl in Kp. apply andb_true_iff in Kp. destruct Kp as (K1 & _).
+    split; [|rewrite K1; reflexivity].
+    destruct (osub H true m l) eqn:E; [|reflexivity]. exfalso.
+    pose proof (Sound.osubT_true_ole H W m l E) as Le. apply (osubF_ole H W) in K1.
+    assert (m = l) by (apply (Lub.ole_antisym H W); assumption). subst l.
+    rewrite (Lub.osubT_irrefl H W m NTm NBm) in E. discriminate. }
+  assert (F2 : forall u, c_upper (cell_of s w) = Some u -> osub H true u m = false ->
+            osub H false m u = true).
+  { intros u Hu E. unfold kpc in Kp. rewrite Hu in Kp. apply andb_true_iff in Kp. destruct Kp as (_ & K2).
+    apply (osubF_ole H W). apply (Sound.osubT_false_cmp H W u m E).
+    apply orb_true_iff in K2. destruct K2 as [K2|K2]; apply (osubF_ole H W) in K2; auto. }
+  assert (UP : forall u, c_upper (cell_of s w) = Some u ->
+    wp ((if osub H true u m then ret tt else if osub H false m u then bset f w m else fail ESubtypeMismatch) ;;; btail f w) sa
+      (fun _ s' => G s s' /\ dclv s' w m /\ (QuietB s s' \/ Stl s') /\ (Dom s t -> dclv t w m -> Dom s' t))
+      (efuel (Dom s t /\ dclv t w m))).
+  { intros u Hu. destruct (osub H true u m) eqn:E; [apply (NOP u Hu E)|].
+    rewrite (F2 u Hu E). apply SET. intros u' Hu'. rewrite Hu in Hu'. injection Hu' as <-.
+    apply (osubF_ole H W). apply (F2 u Hu E). }
+  destruct (c_lower (cell_of s w)) as [l|] eqn:Hl.
+  - destruct (F1 l eq_refl) as (E1 & E2). rewrite E1, E2.
+    destruct (c_upper (cell_of s w)) as [u|] eqn:Hu; [apply (UP u eq_refl)|].
+    apply SET. intros u' Hu'. discriminate.
+  - destruct (c_upper (cell_of s w)) as [u|] eqn:Hu; [apply (UP u eq_refl)|].
+    apply SET. intros u' Hu'. discriminate.
+Qed.
+
+
+(* ---- closed forms of the pieces of fulfill ---- *)
+Lemma minimize_1_err c s e s' : minimize H 1 c s = MEr e s' -> e = EFuel.
+Proof.
+  rewrite FL.minimize_S'. unfold bindM at 1. unfold gets at 1.
+  destruct (k_alts (constr_of s c)) as [|x r]; [intros X; discriminate|].
+  unfold bindM at 1. rewrite FL.min_outer_cons. unfold bindM at 1.
+  rewrite FL.min_inner_nil. unfold ret at 1. unfold bindM at 1. unfold gets at 1.
+  unfold bindM at 1. rewrite fix_ty_0. unfold fail. intros X. injection X as <- _. reflexivity.
+Qed.
+
+Lemma min_form f c s ls : Forall gd ls -> k_alts (constr_of s c) = obs ls ->
+  (exists s', minimize H f c s = MEr EFuel s') \/
+  (1 <= f /\ minimize H f c s =
+   MOk tt (set_constr s c (mkConstr (k_elim (constr_of s c)) (follow s (k_ref (constr_of s c)))
+                                     (obs (mins_of ls)) (k_strict (constr_of s c)) (k_done (constr_of s c))))).
+Proof.
+  intros G Ea. destruct f as [|[|g]].
+  - left. eexists. rewrite minimize_0. reflexivity.
+  - destruct ls as [|x ls].
+    + right. split; [lia|]. apply (minimize_nil H 0 c s Ea).
+    + left. destruct (minimize H 1 c s) as [u s'|e s'] eqn:Em.
+      * apply minimize_1 in Em. rewrite Ea in Em. discriminate.
+      * apply minimize_1_err in Em. subst e. eauto.
+  - right. split; [lia|]. apply (minimize_bases1 H g c s ls G Ea).
+Qed.
+
+Lemma unify_var_form f s r w m : (forall v, chain s (V v)) -> follow s r = V w -> gd m ->
+  (exists s', unify H f true false false r (O m []) s = MEr EFuel s') \/
+  (exists g, f = S g /\ unify H f true false false r (O m []) s = below H g w m s).
+Proof.
+  intros C Ef (Vm & NTm & NBm).
+  assert (Bs : basic H m = true) by (unfold basic, arity; rewrite Vm; reflexivity).
+  destruct f as [|f1]; [left; eexists; rewrite unify_0; reflexivity|].
+  rewrite unify_S. unfold bindM, gets. rewrite Lub.follow_O, Ef. rewrite (proj2 (Nat.eqb_neq m Top) NTm).
+  unfold lift.
+  destruct (occurs_f H f1 s (O m []) (V w)) as [[|]|e] eqn:Eo.
+  - exfalso. eapply (occurs_base_not_true H); [exact Ef|exact Eo].
+  - right. exists f1. split; [reflexivity|]. rewrite Bs. reflexivity.
+  - left. apply occurs_f_err in Eo. subst e. eauto.
+Qed.
+
+Lemma unify_res_form f s r o xs m : follow s r = O o xs -> kpo H o m = true ->
+  unify H (S f) true false false r (O m []) s = MOk tt s.
+Proof.
+  intros Ef K. rewrite unify_S. unfold bindM, gets. rewrite Lub.follow_O, Ef. unfold kpo in K.
+  destruct (o =? Bottom); [reflexivity|]. cbn [orb] in K |- *.
+  destruct (m =? Top); [reflexivity|].
+  apply andb_true_iff in K. destruct K as (Bo & K). rewrite Bo. cbn [andb negb].
+  assert (X : osub H false o m = true).
+  { apply orb_true_iff in K. destruct K as [K|K]; [|exact K]. apply Nat.eqb_eq in K. subst. apply (osubF_ole H W). apply Lub.ole_refl. }
+  rewrite X. reflexivity.
+Qed.
+
+Lemma set_constr_same s c : c < length (constrs s) -> set_constr s c (constr_of s c) = s.
+Proof.
+  intros L. destruct s as [vs cs ks sc]. cbn in *. f_equal. unfold constr_of. cbn.
+  revert c L. induction ks as [|k ks IH]; intros [|c] L; cbn in *; try lia; auto.
+  f_equal. apply IH. lia.
+Qed.
+
+
+(* ---- the canonical reference of a constraint in a later state ---- *)
+Lemma rho_nb c : nb s0 (rho c).
+Proof. unfold rho. eapply Inv.follow_unbound. apply P0. Qed.
+
+Lemma rho_cases s c : Step s ->
+  (exists o xs, rho c = O o xs) \/
+  (exists w, rho c = V w /\ (unb s w /\ follow s (V w) = V w \/
+                             exists a, cell_of s w = bcell a /\ c_lower (cell_of s0 w) = Some a /\ follow s (V w) = O a [])).
+Proof.
+  intros S. pose proof (rho_nb c) as N. destruct (rho c) as [w|o xs]; [right|left; eauto].
+  cbn [nb] in N. exists w. split; [reflexivity|].
+  destruct (st_cell s S w) as [Ec|(_ & _ & (_ & _ & _ & D))].
+  - left. split; [unfold unb; rewrite Ec; exact N|apply Lub.follow_V_unbound; rewrite Ec; exact N].
+  - destruct D as [(Bn & _)|(a & Ec & La & _)].
+    + left. split; [exact Bn|apply Lub.follow_V_unbound; exact Bn].
+    + right. exists a. split; [exact Ec|split; [exact La|]]. apply Lub.follow_V_bound_O. rewrite Ec. reflexivity.
+Qed.
+
+Lemma rho_var s c w : Step s -> follow s (rho c) = V w -> rho c = V w.
+Proof.
+  intros S E. destruct (rho_cases s c S) as [(o & xs & R)|(w1 & R & [(_ & F)|(a & _ & _ & F)])]; rewrite R in *.
+  - rewrite Lub.follow_O in E. discriminate.
+  - rewrite F in E. exact E.
+  - rewrite F in E. discriminate.
+Qed.
+
+Lemma lower_basic a w : c_lower (cell_of s0 w) = Some a -> basic H a = true /\ a <> Bottom.
+Proof.
+  intros La. destruct P0 as (L & _). destruct (bok_basic _ a (lw_bok s0 L w) La) as (Va & NB & _).
+  split; [unfold basic, arity; rewrite Va; reflexivity|exact NB].
+Qed.
+
+Lemma dcl_res s c o xs m : Step s -> follow s (rho c) = O o xs -> kpo H o m = true -> dcl s (rho c) m.
+Proof.
+  intros S E K. destruct (rho_cases s c S) as [(o' & xs' & R)|(w1 & R & [(_ & F)|(a & Ec & La & F)])]; rewrite R in *.
+  - rewrite Lub.follow_O in E. injection E as -> ->. exact K.
+  - rewrite F in E. discriminate.
+  - rewrite F in E. injection E as <- <-. cbn [dcl]. split; [rewrite Ec; reflexivity|split].
+    + intros U. unfold unb in U. rewrite Ec in U. discriminate.
+    + intros b Hb. rewrite Ec in Hb. cbn in Hb. injection Hb as <-. exists a. split; [reflexivity|].
+      apply (kpo_ole H W); [apply (lower_basic a w1 La)|exact K].
+Qed.
+
+Lemma dcl_kp s c m : Step s -> LW s -> dcl s (rho c) m -> kp H s (rho c) m = true.
+Proof.
+  intros S L D. destruct (rho_cases s c S) as [(o' & xs' & R)|(w1 & R & [(U & F)|(a & Ec & La & F)])]; rewrite R in *.
+  - unfold kp. rewrite Lub.follow_O. exact D.
+  - unfold kp. rewrite F. destruct D as (_ & Du & _). destruct (Du U) as (u & Hu & Le & _).
+    apply (kpc_upper_le H W _ u m (lw_bok s L w1) Hu Le).
+  - unfold kp. rewrite F. destruct D as (_ & _ & Db). destruct (Db (O a [])) as (o & Eo & Le); [rewrite Ec; reflexivity|].
+    injection Eo as <-. apply (ole_kpo H W); [apply (lower_basic a w1 La)|exact Le].
+Qed.
+
+Lemma T2_mark s c k3 s' m : k_done (constr_of s c) = false -> c < length (constrs s) ->
+  k_done k3 = true -> k_alts k3 = [ob m] ->
+  T2 (set_constr s c k3) s' -> dcl s' (rho c) m -> T2 s s'.
+Proof.
+  intros Dn Lc D3 A3 T Dc. set (s3 := set_constr s c k3) in *.
+  assert (Csame : forall c', c' <> c -> constr_of s3 c' = constr_of s c').
+  { intros c' N. destruct (constr_of_set_constr s c k3 c') as [(_ & X & _)|X]; [contradiction|exact X]. }
+  assert (Cc : constr_of s3 c = k3) by (apply constr_of_set_constr_same; exact Lc).
+  constructor.
+  - exact (t2_cell _ _ T).
+  - exact (t2_ne _ _ T).
+  - intros c' D. assert (N : c' <> c) by (intros ->; congruence).
+    apply (t2_done _ _ T). rewrite (Csame c' N). exact D.
+  - intros c' E D. assert (N : c' <> c) by (intros ->; congruence).
+    rewrite <- (Csame c' N). apply (t2_frz _ _ T c' E). rewrite (Csame c' N). exact D.
+  - intros c' Hc E D1 D2. destruct (Nat.eq_dec c' c) as [->|N].
+    + exists m. rewrite (t2_frz _ _ T c E) by (rewrite Cc; exact D3). rewrite Cc. auto.
+    + apply (t2_dcl _ _ T c' Hc E); [rewrite (Csame c' N); exact D1|exact D2].
+Qed.
+
+(* ---- what the end t of the other run knows about a constraint ---- *)
+Lemma mins_of_single m : mins_of [m] = [m].
+Proof. reflexivity. Qed.
+
+Lemma t_in c : In c (cset_of s0 i) -> k_done (constr_of t c) = false -> In c (cset_of t i).
+Proof.
+  intros Hc D. destruct (in_dec Nat.eq_dec c (cset_of t i)) as [X|X]; [exact X|].
+  rewrite (st_rm t FS c Hc X) in D. discriminate.
+Qed.
+
+Lemma t_sub_ok c : In c (cset_of s0 i) -> k_elim (constr_of s0 c) = false ->
+  vd t (constr_of t c) = PKeep \/ vd t (constr_of t c) = PDone.
+Proof.
+  intros Hc E. pose proof (kind_sub t c FS E) as Ek. destruct FP as (_ & _ & Sd).
+  destruct (k_done (constr_of t c)) eqn:D; [right; apply Sd; auto|left].
+  pose proof (FL' c (t_in c Hc D)) as St. unfold settled in St. rewrite Ek in St. apply St.
+Qed.
+
+Lemma t_alts c l0 : In c (cset_of s0 i) -> k_elim (constr_of s0 c) = true ->
+  k_done (constr_of s0 c) = false -> k_alts (constr_of s0 c) = obs l0 ->
+  exists lt, k_alts (constr_of t c) = obs lt /\ lt <> [] /\ NoDup lt /\
+    (forall m, In m lt -> In m (mins_of l0) /\ kp H t (rho c) m = true) /\
+    (forall m, lt = [m] -> dcl t (rho c) m).
+Proof.
+  intros Hc E D Ea. pose proof FP as (Lt & _).
+  pose proof (in_range0 t c FS Hc) as Lc. pose proof (kind_elim t c FS Hc E) as Ek.
+  pose proof (lw_kw t Lt c Lc) as Sh. unfold shape in Sh. rewrite Ek in Sh. destruct Sh as (lt & Gl & El).
+  destruct (elm_form t c l0 lt FS Hc E D Ea El) as (_ & Pit & (P & EP) & _).
+  exists lt. split; [exact El|].
+  destruct (k_done (constr_of t c)) eqn:Dt.
+  - destruct (t2_dcl _ _ FT c Hc E D Dt) as (m & Am & Dc). rewrite El in Am.
+    change [ob m] with (obs [m]) in Am. apply obs_inj in Am. subst lt.
+    split; [discriminate|split; [repeat constructor; intros []|split]].
+    + intros m' [<-|[]]. split; [|apply dcl_kp; auto].
+      rewrite mins_of_single in EP. assert (X : In m [m]) by (left; reflexivity). rewrite EP in X.
+      apply filter_In in X. apply X.
+    + intros m' [= <-]. exact Dc.
+  - pose proof (FL' c (t_in c Hc Dt)) as St. unfold settled in St. rewrite Ek in St.
+    destruct St as (_ & En & l & El' & An & Le & Kp). rewrite El in El'. apply obs_inj in El'. subst l.
+    split; [intros ->; cbn in Le; lia|split; [apply (anti_NoDup H); exact An|split]].
+    + intros m Hm. split.
+      * rewrite (mins_of_anti H lt An) in EP. rewrite EP in Hm. apply filter_In in Hm. apply Hm.
+      * rewrite <- (Kp m Hm). apply kp_follow. symmetry. apply (proj2 (st_elm t FS c l0 Hc E D Ea)).
+    + intros m ->. cbn in Le. lia.
+Qed.
+
+(* every alternative t still has survives the filter in a state that dominates t *)
+Lemma lt_in s c l0 ls lt r0 m : Step s -> Pre s -> Dom s t -> In c (cset_of s0 i) ->
+  k_elim (constr_of s0 c) = true -> k_done (constr_of s0 c) = false -> k_alts (constr_of s0 c) = obs l0 ->
+  k_alts (constr_of s c) = obs ls -> follow s r0 = follow s (rho c) ->
+  k_alts (constr_of t c) = obs lt -> In m lt ->
+  (forall m, In m lt -> In m (mins_of l0) /\ kp H t (rho c) m = true) ->
+  In m (filter (kp H s r0) (mins_of ls)).
+Proof.
+  intros S (L & _) Dm Hc E D Ea Es Er Et Hm Ht. destruct (Ht m Hm) as (Hm0 & Kt). pose proof FP as (Lt & _).
+  assert (Ks : kp H s (rho c) m = true).
+  { apply (kp_mono s t (rho c) m (lw_inv s L) (lw_inv t Lt) (lw_bok s L) (lw_bok t Lt) (gd_of_mins c l0 m Hc E Ea Hm0) Dm Kt). }
+  destruct (elm_form s c l0 ls S Hc E D Ea Es) as (_ & Pis & _ & _).
+  apply filter_In. split.
+  - apply (proj2 (mins_of_PI H ls Pis)). destruct (in_dec Nat.eq_dec m ls) as [X|X]; [exact X|exfalso].
+    assert (N : ~ In (ob m) (k_alts (constr_of s c))) by (rewrite Es, In_obs; exact X).
+    rewrite (st_keeps s S c l0 m Hc E D Ea Hm0 N) in Ks. discriminate.
+  - rewrite <- Ks. apply kp_follow. exact Er.
+Qed.
+
+
+(* ---- fulfill ---- *)
+Lemma wp_bind_ok {A B} (m : M A) (k : A -> M B) s a s1 (Q : B -> store -> Prop) E :
+  m s = MOk a s1 -> wp (k a) s1 Q E -> wp (bindM m k) s Q E.
+Proof. intros Em T. unfold wp, bindM. rewrite Em. exact T. Qed.
+
+Lemma wp_bind_er {A B} (m : M A) (k : A -> M B) s e s1 (Q : B -> store -> Prop) (E : err -> Prop) :
+  m s = MEr e s1 -> E e -> wp (bindM m k) s Q E.
+Proof. intros Em T. unfold wp, bindM. rewrite Em. exact T. Qed.
+
+Lemma T2_constr' s s' : vars s' = vars s ->
+  (forall c, k_done (constr_of s c) = true -> constr_of s' c = constr_of s c) ->
+  (forall c, k_elim (constr_of s0 c) = true -> k_done (constr_of s' c) = true -> k_done (constr_of s c) = true) ->
+  T2 s s'.
+Proof.
+  intros Ev Hf Hd. constructor.
+  - intros w. rewrite (cell_of_vars s' s w Ev). apply crel_refl.
+  - intros w a _ _. rewrite (cell_of_vars s' s w Ev). auto.
+  - intros c D. rewrite (Hf c D). exact D.
+  - intros c _ D. apply Hf. exact D.
+  - intros c _ E D1 D2. rewrite (Hd c E D2) in D1. discriminate.
+Qed.
+
+Lemma sub_rec s c : Step s -> k_elim (constr_of s0 c) = false ->
+  k_ref (constr_of s c) = k_ref (constr_of s0 c) /\ k_alts (constr_of s c) = k_alts (constr_of s0 c) /\
+  k_strict (constr_of s c) = k_strict (constr_of s0 c).
+Proof. intros S E. destruct (st_sub s S c E) as [X|X]; rewrite X; auto. Qed.
+
+Definition Quiet (c : nat) (b : bool) (s s' : store) : Prop :=
+  (forall w, ceqw (cell_of s w) (cell_of s' w)) /\
+  (forall c', c' <> c -> constr_of s' c' = constr_of s c') /\
+  csets s' = csets s /\ len s' = len s /\
+  (b = false -> In c (cset_of s i) -> settled s' c).
+
+Definition SP_ful f := forall c s, Step s -> Pre s -> In c (cset_of s0 i) ->
+  wp (fulfill H f c) s
+     (fun b s' => G s s' /\ (b = true -> k_done (constr_of s' c) = true) /\
+                  (Quiet c b s s' \/ Stl s') /\ (Dom s t -> Dom s' t))
+     (efuel (Dom s t)).
+
+Lemma ceqw_refl c : ceqw c c.
+Proof. repeat split. Qed.
+
+Lemma ful_sub f c s : Step s -> Pre s -> In c (cset_of s0 i) -> k_elim (constr_of s0 c) = false ->
+  wp (fulfill H f c) s
+     (fun b s' => G s s' /\ (b = true -> k_done (constr_of s' c) = true) /\
+                  (Quiet c b s s' \/ Stl s') /\ (Dom s t -> Dom s' t))
+     (efuel (Dom s t)).
+Proof.
+  intros S P Hc E0. pose proof P as (L & Hr & Sd). pose proof FP as (Lt & _).
+  pose proof (in_range0 s c S Hc) as Lc. pose proof (kind_sub s c S E0) as Ek.
+  pose proof (lw_kw s L c Lc) as Sh. pose proof (shape_pureK H _ Ek Sh) as Pk.
+  unfold shape in Sh. rewrite Ek in Sh. destruct Sh as (a & Ea & Ba).
+  eapply wp_eq; [apply (fulfill_pure H f c s Pk)|].
+  destruct (pfc_fuel H f s (constr_of s c) a Ea Ba) as [X|X]; rewrite X; [left; reflexivity|].
+  destruct (vd s (constr_of s c)) as [e| |] eqn:V.
+  - right. intros Dm.
+    destruct (vd_err_mono s t _ a e (lw_inv s L) (lw_inv t Lt) (lw_bok s L) (lw_bok t Lt) Dm Ea Ba V) as (e' & X').
+    destruct (sub_rec s c S E0) as (R1 & R2 & R3). destruct (sub_rec t c FS E0) as (T1 & T2' & T3).
+    rewrite (pfc_vars H 4 t t (constr_of s c) (constr_of t c)) in X' by congruence.
+    destruct (t_sub_ok c Hc E0) as [Y|Y]; congruence.
+  - destruct (sub_mark_pres s c S P Hc E0 V) as (S' & P').
+    assert (Csame : forall c', c' <> c -> constr_of (markd c s) c' = constr_of s c').
+    { intros c' N. destruct (constr_of_markd c s c') as [Y|(Y & _)]; [exact Y|contradiction]. }
+    assert (Cc : constr_of (markd c s) c = done_of (constr_of s c)).
+    { unfold markd. apply constr_of_set_constr_same. exact Lc. }
+    split; [split; [exact S'|split; [exact P'|]]|split; [|split]].
+    + apply T2_constr'; [reflexivity| |].
+      * intros c' D. destruct (Nat.eq_dec c' c) as [->|N]; [|apply Csame; exact N].
+        rewrite Cc. unfold done_of. destruct (constr_of s c); cbn in *; subst; reflexivity.
+      * intros c' E' D. destruct (Nat.eq_dec c' c) as [->|N]; [congruence|]. rewrite <- (Csame c' N). exact D.
+    + intros _. rewrite Cc. reflexivity.
+    + left. split; [intros w; apply ceqw_refl|split; [exact Csame|split; [reflexivity|split; [reflexivity|discriminate]]]].
+    + intros D. exact D.
+  - split; [split; [exact S|split; [exact P|apply T2_refl]]|split; [auto|split; [|auto]]].
+    left. split; [intros w; apply ceqw_refl|split; [reflexivity|split; [reflexivity|split; [reflexivity|]]]].
+    intros Dn _. unfold settled. rewrite Ek. split; assumption.
+Qed.
+
+
+Lemma s_in s c : Step s -> In c (cset_of s0 i) -> k_done (constr_of s c) = false -> In c (cset_of s i).
+Proof.
+  intros S Hc D. destruct (in_dec Nat.eq_dec c (cset_of s i)) as [X|X]; [exact X|].
+  rewrite (st_rm s S c Hc X) in D. discriminate.
+Qed.
+
+Lemma done0_false s c : Step s -> k_elim (constr_of s0 c) = true -> k_done (constr_of s c) = false ->
+  k_done (constr_of s0 c) = false.
+Proof.
+  intros S E D. destruct (k_done (constr_of s0 c)) eqn:D0; [|reflexivity].
+  rewrite (st_don s S c E D0) in D. congruence.
+Qed.
+
+Lemma ful_elim f c s : (forall g, g <= f -> SP_below g) ->
+  Step s -> Pre s -> In c (cset_of s0 i) -> k_elim (constr_of s0 c) = true ->
+  wp (fulfill H (S f) c) s
+     (fun b s' => G s s' /\ (b = true -> k_done (constr_of s' c) = true) /\
+                  (Quiet c b s s' \/ Stl s') /\ (Dom s t -> Dom s' t))
+     (efuel (Dom s t)).
+Proof.
+  intros BL Ss P Hc E0. pose proof P as (L & Hr & Sd). pose proof FP as (Lt & _).
+  pose proof (in_range0 s c Ss Hc) as Lc. pose proof (kind_elim s c Ss Hc E0) as Ek.
+  rewrite FL.fulfill_S'. apply wp_gets. rewrite Ek.
+  destruct (k_done (constr_of s c)) eqn:Ed.
+  { apply wp_ret. split; [split; [exact Ss|split; [exact P|apply T2_refl]]|split; [auto|split; [|auto]]].
+    left. split; [intros w; apply ceqw_refl|split; [reflexivity|split; [reflexivity|split; [reflexivity|discriminate]]]]. }
+  pose proof (done0_false s c Ss E0 Ed) as D0. pose proof (s_in s c Ss Hc Ed) as Hci.
+  destruct (alts0 c Hc E0) as (l0 & Gl0 & Ea0 & Pi0).
+  pose proof (lw_kw s L c Lc) as Sh. unfold shape in Sh. rewrite Ek in Sh. destruct Sh as (ls & Gls & Es).
+  destruct (elm_form s c l0 ls Ss Hc E0 D0 Ea0 Es) as (Est & Pis & (P1 & EP1) & Hdrop).
+  pose proof (proj2 (st_elm s Ss c l0 Hc E0 D0 Ea0)) as Erho.
+  set (k := constr_of s c) in *. set (r0 := follow s (k_ref k)).
+  assert (Nr0 : nb s r0) by (apply (@Inv.follow_unbound true s (k_ref k)); apply L).
+  assert (Fr0 : follow s r0 = r0) by (apply follow_of_nb; exact Nr0).
+  assert (Er0 : follow s r0 = follow s (rho c)) by (rewrite Fr0; exact Erho).
+  destruct (min_form f c s ls Gls Es) as [(s' & Em)|(Lf & Em)].
+  { eapply wp_bind_er; [exact Em|left; reflexivity]. }
+  eapply wp_bind_ok; [exact Em|]. fold k. rewrite Ek, Ed. fold r0.
+  set (L1 := mins_of ls) in *.
+  set (s1 := set_constr s c (mkConstr true r0 (obs L1) (k_strict k) false)).
+  assert (C1 : constr_of s1 c = mkConstr true r0 (obs L1) (k_strict k) false)
+    by (unfold s1; apply constr_of_set_constr_same; exact Lc).
+  assert (GL1 : Forall gd L1) by (apply FL.mins_of_good; exact Gls).
+  apply wp_gets. rewrite C1. apply wp_gets.
+  assert (Nm : forallb (fun t0 => match t0 with
+                | V v => match c_bound (cell_of s1 v) with Some _ => false | None => true end
+                | O _ _ => true end) (constr_terms (mkConstr true r0 (obs L1) (k_strict k) false)) = true).
+  { cbn [constr_terms k_ref k_alts forallb]. rewrite FL.forallb_obs, andb_true_r.
+    destruct r0 as [v|o xs]; [|reflexivity]. change (cell_of s1 v) with (cell_of s v). cbn [nb] in Nr0. rewrite Nr0. reflexivity. }
+  rewrite Nm. cbn [negb k_ref k_alts].
+  destruct f as [|f']; [lia|].
+  eapply wp_lift; [apply (filt_keep H f' s1 r0 L1 GL1)|].
+  set (l2 := filter (keep H (S f') s1 r0) L1).
+  assert (El2 : l2 = filter (kp H s r0) L1).
+  { unfold l2. apply filter_ext_in. intros m Hm. rewrite Forall_forall in GL1.
+    rewrite (keep_kp H f' s1 r0 m (GL1 m Hm)). apply kp_vars. reflexivity. }
+  assert (G2 : Forall gd l2).
+  { apply incl_Forall with (l1 := L1); [apply incl_filter|exact GL1]. }
+  unfold upd_constr at 1. apply wp_modify. rewrite C1. cbn [k_ref k_strict k_done].
+  assert (Es2 : set_constr s1 c (mkConstr true r0 (obs l2) (k_strict k) false) =
+                set_constr s c (mkConstr true r0 (obs l2) (k_strict k) false)).
+  { unfold s1. cbn. rewrite si_upd_upd. reflexivity. }
+  rewrite Es2. clear Es2.
+  set (s2 := set_constr s c (mkConstr true r0 (obs l2) (k_strict k) false)).
+  assert (C2 : constr_of s2 c = mkConstr true r0 (obs l2) (k_strict k) false)
+    by (unfold s2; apply constr_of_set_constr_same; exact Lc).
+  (* what t knows *)
+  destruct (t_alts c l0 Hc E0 D0 Ea0) as (lt & Elt & Nlt & NDlt & Hlt & Hsing).
+  assert (LT : Dom s t -> forall m, In m lt -> In m l2).
+  { intros Dm m Hm. rewrite El2. apply (lt_in s c l0 ls lt r0 m Ss P Dm Hc E0 D0 Ea0 Es Er0 Elt Hm Hlt). }
+  assert (HQ : forall m, In m L1 -> kp H s r0 m = false -> kp H s (k_ref k) m = false).
+  { intros m _ X. rewrite <- X. apply kp_follow. symmetry. exact Fr0. }
+  admit.
+Admitted.
+
+End D.
 End R.
